@@ -8,8 +8,9 @@ from edb.pgsql.compiler import clauses
 from edb.common import compiler as ccompiler
 
 NAMES = ['0', '1', '2', 'x', 'y', '__edb_arg_3', '__edb_arg_4', '__edb_decoded_0__', '__edb_decoded_x__']
+SUB = types.SimpleNamespace(params=(), trans_type=types.SimpleNamespace(flatten=lambda: ()))      # a tuple parameter's decomposition (only its presence matters here)
 def P(name, sub=False):
-    return irast.Param(name=name, required=True, schema_type=None, ir_type=None, sub_params=(object() if sub else None))
+    return irast.Param(name=name, required=True, schema_type=None, ir_type=None, sub_params=(SUB if sub else None))
 def G(name, present):
     return irast.Global(name=name, required=False, schema_type=None, ir_type=None, global_name=None, has_present_arg=present)
 
@@ -40,6 +41,28 @@ def check(params, globs, prefix):
     if prefix is None and not globs:
         msg = check_unused_vars(params, am)
         if msg: return msg
+        msg = check_extract(params, am)
+        if msg: return msg
+    return None
+
+EXTRACT = dict(runs=0, rejected=0)
+def check_extract(params, am):
+    """the REAL compiler._extract_params on the argmap the real populate_argmap produced: the descriptor of every user-visible parameter is filed under the parameter's
+    LOGICAL position (what the client binds by), for tuple parameters too (several physical slots, one logical)"""
+    from edb.server.compiler import compiler as C
+    cctx = types.SimpleNamespace(source=None, json_parameters=False)
+    try: oparams, ita = C._extract_params(list(params), schema=None, argmap=am, script_info=None, ctx=cctx)
+    except RuntimeError:
+        EXTRACT['rejected'] += 1; return None      # positional name disagrees with its position: rejected, nothing reported
+    EXTRACT['runs'] += 1
+    user = [p for p in params if not p.is_sub_param]
+    if len(ita) != len(user) or len(oparams) != len(user): return '_extract_params: %d user parameters but %d / %d descriptors' % (len(user), len(oparams), len(ita))
+    for p in user:
+        pos = am[p.name].logical_index - 1
+        if ita[pos] is None or ita[pos].name != p.name:
+            return '_extract_params: the argmap files $%s under logical position %d, in_type_args[%d] describes %r' % (p.name, pos + 1, pos, None if ita[pos] is None else ita[pos].name)
+        if oparams[pos] is None or oparams[pos][0] != p.name:
+            return '_extract_params: input descriptor slot %d is %r, expected $%s' % (pos, oparams[pos], p.name)
     return None
 
 def check_unused_vars(params, am):
@@ -93,6 +116,7 @@ def main():
         res['alias_runs'] += 1
         if a1 != a2: fail(kind='alias', hints=seq, problem='two generators fed the same hints disagree: %r vs %r' % (a1, a2)); break
         if len(set(a1)) != len(a1): fail(kind='alias', hints=seq, problem='alias handed out twice: %r' % (a1,)); break
+    res['extract'] = EXTRACT
     json.dump(res, open(out, 'w'), indent=1)
 
 if __name__ == '__main__':
